@@ -523,21 +523,21 @@ class DynCase:
     """DynamicRFKickMap (linear RF, phase modulation and/or phase/amplitude noise) and a DriftMap driven as main() drives them
     (`rfm->apply(); rfm->applyToAll(ps); drm->apply(); drm->applyToAll(ps)`), a unit hat-blob on particle 0"""
 
-    def __init__(self, cid, n, it, qmax, angle, revpart, frf, phasespread, amplspread, modampl, modinc, steps, seed, slip0, parts):
+    def __init__(self, cid, n, it, qmax, angle, revpart, frf, phasespread, amplspread, modampl, modinc, steps, seed, slip0, parts, renew=6):
         self.cid, self.n, self.it, self.qmax, self.angle, self.revpart, self.frf = cid, n, it, qmax, angle, revpart, frf
         self.phasespread, self.amplspread, self.modampl, self.modinc = phasespread, amplspread, modampl, modinc
-        self.steps, self.seed, self.slip0, self.parts = steps, seed, slip0, parts
+        self.steps, self.seed, self.slip0, self.parts, self.renew = steps, seed, slip0, parts, renew
 
     def impl_text(self):
-        return "dyntrack %s %d %d %s %s %s %r %r %s %s %s %r %d %d %s %d %s\n" % (
+        return "dyntrack %s %d %d %s %s %s %r %r %s %s %s %r %d %d %s %d %d %s\n" % (
             self.cid, self.n, self.it, fhex(-self.qmax), fhex(self.qmax), fhex(self.angle), self.revpart, self.frf,
             fhex(self.phasespread), fhex(self.amplspread), fhex(self.modampl), self.modinc, self.steps, self.seed,
-            fhex(self.slip0), len(self.parts), " ".join("%s %s" % (fhex(x), fhex(y)) for x, y in self.parts))
+            fhex(self.slip0), self.renew, len(self.parts), " ".join("%s %s" % (fhex(x), fhex(y)) for x, y in self.parts))
 
     def replay(self):
         return dict(kind="dyn", id=self.cid, n=self.n, it=self.it, qmax=fhex(self.qmax), angle=fhex(self.angle), revpart=self.revpart,
                     frf=self.frf, phasespread=fhex(self.phasespread), amplspread=fhex(self.amplspread), modampl=fhex(self.modampl),
-                    modinc=self.modinc, steps=self.steps, seed=self.seed, slip0=fhex(self.slip0),
+                    modinc=self.modinc, steps=self.steps, seed=self.seed, slip0=fhex(self.slip0), renew=self.renew,
                     parts=[[fhex(x), fhex(y)] for x, y in self.parts])
 
 
@@ -545,14 +545,14 @@ def dyn_from_replay(rp):
     fh = float.fromhex
     return DynCase(rp["id"], rp["n"], rp["it"], fh(rp["qmax"]), fh(rp["angle"]), rp["revpart"], rp["frf"], fh(rp["phasespread"]),
                    fh(rp["amplspread"]), fh(rp["modampl"]), rp["modinc"], rp["steps"], rp["seed"], fh(rp["slip0"]),
-                   [(fh(x), fh(y)) for x, y in rp["parts"]])
+                   [(fh(x), fh(y)) for x, y in rp["parts"]], rp.get("renew", 6))
 
 
 def gen_dyn(ctx, count, prefix="d"):
     rng = ctx.rng
     cases = []
     for i in range(count):
-        n = rng.choice([32, 40, 48])
+        n = rng.choice([56, 64])
         it = rng.choice([3, 4])
         angle = f32(rng.uniform(0.08, 0.3))
         frf = 4.77e7 * rng.uniform(0.6, 1.6)                 # bl2phase = 2 pi f_RF / c of order one
@@ -568,7 +568,7 @@ def gen_dyn(ctx, count, prefix="d"):
         parts += [(f32(rng.uniform(0, n - 1)), f32(rng.uniform(0, n - 1))) for _ in range(rng.randint(2, 6))]
         parts += [(0.0, float(n - 1)), (float(n - 1), 0.0)]
         cases.append(DynCase("%s%d" % (prefix, i), n, it, 6.0, angle, 1.0, frf, phasespread, amplspread, modampl, modinc, steps,
-                             rng.randint(1, 2 ** 31 - 1), slip0, parts))
+                             rng.randint(1, 2 ** 31 - 1), slip0, parts, renew=rng.choice([4, 6])))
         ctx.count("dyn:" + ("modulation", "noise", "modulation+noise")[style])
     return cases
 
